@@ -157,7 +157,7 @@ func (w *c06World) write(root string, l c06Layout) (dir, index string, err error
 	d1.Write(w.packet(c06Tok{"own", "recv", 9999}))
 	d2.Write(w.packet(c06Tok{"own", "creator", 0}))
 	d2.Write(w.packet(c06Tok{"own", "recv", 9998}))
-	ioutil.WriteFile(filepath.Join(dir, base+".decoy.par3"), d1.Bytes(), 0644) // prefix only
+	ioutil.WriteFile(filepath.Join(dir, base+".decoy.par3"), d1.Bytes(), 0644)      // prefix only
 	ioutil.WriteFile(filepath.Join(dir, "zz"+base+".decoy.par2"), d2.Bytes(), 0644) // suffix only
 	return
 }
@@ -328,8 +328,8 @@ func runC06(args []string) error {
 			}
 			lg.Emit(tracelog.M{"ev": "layout", "id": l.ID, "damage": dmg, "pathmode": pathmode, "nexps": len(nexps), "style": l.Style,
 				"volname": l.VolName, "base": l.Base, "dir": l.Dir, "exps": l.Exps,
-				"verify": tracelog.M{"err": vo.Err, "errtext": vo.ErrText + vo.Panic, "usable": vo.Usable, "unusable": vo.Unusable, "pusable": vo.PUsable, "needed": vo.Needed},
-				"repair": tracelog.M{"err": ro.Err, "errtext": ro.ErrText + ro.Panic, "repaired": ro.Repaired},
+				"verify":   tracelog.M{"err": vo.Err, "errtext": vo.ErrText + vo.Panic, "usable": vo.Usable, "unusable": vo.Unusable, "pusable": vo.PUsable, "needed": vo.Needed},
+				"repair":   tracelog.M{"err": ro.Err, "errtext": ro.ErrText + ro.Panic, "repaired": ro.Repaired},
 				"restored": w.restored(dir), "canon": canon[dmg], "outside": outside})
 		}
 	}
